@@ -25,7 +25,7 @@ let rec pos_to_digits p : int list =          (* little-endian decimal digits *)
   match p with XH -> [1] | XO q -> dbl (pos_to_digits q) 0 | XI q -> dbl (pos_to_digits q) 1
 let string_of_pos p = S.concat "" (L.rev_map string_of_int (pos_to_digits p))
 let string_of_z = function Z0 -> "0" | Zpos p -> string_of_pos p | Zneg p -> "-" ^ string_of_pos p
-let z_of_string (s : string) : z =
+let z_of_string (s : S.t) : z =
   let neg = S.length s > 0 && s.[0] = '-' in
   let ds = if neg then S.sub s 1 (S.length s - 1) else s in
   (* binary digits by repeated halving of the decimal string *)
@@ -71,7 +71,7 @@ let ints_of_string s = L.init (S.length s) (fun i -> Stdlib.Char.code s.[i])
 let bits64 (x : float) = P.sprintf "%016Lx" (Stdlib.Int64.bits_of_float x)
 let bits32_of_int32 (x : int32) = P.sprintf "%08lx" x
 (* strtod on the characters num_get accumulated; they only contain [+-0-9.e] *)
-let strtod_opt (s : string) : float option =
+let strtod_opt (s : S.t) : float option =
   if s = "" then None else
   if S.contains s '_' || S.contains s 'x' || S.contains s 'X' || S.contains s 'n' || S.contains s 'i' then None
   else Stdlib.float_of_string_opt s
@@ -101,7 +101,7 @@ let alphabet = ref "0123456789+-.exa "
 let bits_of (s : istream) = let r = (if s.eofb then "e" else "") ^ (if s.failb then "f" else "") in if r = "" then "g" else r
 let consumed (tok : int list) (s : istream) = L.length tok - L.length s.rest
 
-let tok_line tok tn (run : istream -> istream * string option) (sentinel : string) =
+let tok_line tok tn (run : istream -> istream * S.t option) (sentinel : S.t) =
   let s0 = of_bytes (zbytes tok) in
   let (s1, a) = run s0 in
   let (s2, b) = run s1 in
@@ -124,6 +124,194 @@ let rec tokens_rec (cur : int list) maxlen =
   tok_all (L.rev cur);
   if L.length cur < maxlen then S.iter (fun c -> tokens_rec (Stdlib.Char.code c :: cur) maxlen) !alphabet
 
+(* ---------------------------------------------------------------- printing primitives for the writer model *)
+let print_g (x : float) : z list = zbytes (ints_of_string (P.sprintf "%g" x))
+let print_d (bits : z) : z list = print_g (Stdlib.Int64.float_of_bits (int64_of_z bits))
+let print_f (bits : z) : z list = print_g (Stdlib.Int32.float_of_bits (Stdlib.Int64.to_int32 (int64_of_z bits)))
+
+(* ---------------------------------------------------------------- canonical values *)
+let kinds = [ ("V", KV); ("E", KE); ("HE", KHE); ("F", KF); ("HF", KHF); ("C", KC); ("M", KM) ]
+let kind_name k = fst (L.find (fun (_, k') -> k' = k) kinds)
+let kind_index k = let rec go i = function [] -> 7 | (_, k') :: t -> if k' = k then i else go (i + 1) t in go 0 kinds
+let tname t = string_of_ints (ibytes (type_name t))
+
+let rec show_val (t : atype) (v : aval) : S.t =
+  match v with
+  | VInt z -> string_of_z z
+  | VFlt b -> (match t with TFloat | TVec (_, SF) -> hex32_of_z b | _ -> hex64_of_z b)
+  | VStr l -> "s" ^ hex_of_ints (ibytes l)
+  | VList l ->
+      (match t with
+       | TVec (_, _) -> "(" ^ S.concat "," (L.map (show_val t) l) ^ ")"
+       | TMapHehInt -> "{" ^ S.concat "," (L.map (function VList [k; x] -> show_val TInt k ^ ":" ^ show_val TInt x | _ -> "?") l) ^ "}"
+       | TVecVecHfh -> "[" ^ S.concat "," (L.map (show_val TVecHfh) l) ^ "]"
+       | TVecDouble -> "[" ^ S.concat "," (L.map (show_val TDouble) l) ^ "]"
+       | _ -> "[" ^ S.concat "," (L.map (show_val TInt) l) ^ "]")
+
+(* recursive-descent parser of a canonical value of type t at position !i of s *)
+let parse_val (t : atype) (s : S.t) : aval =
+  let n = S.length s in
+  let i = ref 0 in
+  let peek () = if !i < n then s.[!i] else '\000' in
+  let adv () = incr i in
+  let take p = let st = !i in while !i < n && p s.[!i] do incr i done; S.sub s st (!i - st) in
+  let is_hex c = (c >= '0' && c <= '9') || (c >= 'a' && c <= 'f') || (c >= 'A' && c <= 'F') in
+  let int_tok () = z_of_string (take (fun c -> (c >= '0' && c <= '9') || c = '-')) in
+  let flt k = let h = S.sub s !i (min k (n - !i)) in i := !i + S.length h; VFlt (z_of_int64u (Stdlib.Int64.of_string ("0x" ^ h))) in
+  let rec seq close elem = (* after the opening bracket *)
+    let acc = ref [] in
+    while !i < n && peek () <> close do acc := elem () :: !acc; if peek () = ',' then adv () done;
+    if peek () = close then adv ();
+    L.rev !acc in
+  let rec go t =
+    match t with
+    | TInt | TUInt | TShort | TLong | TULong | TChar | TUChar | TBool -> VInt (int_tok ())
+    | TFloat -> flt 8
+    | TDouble -> flt 16
+    | TString -> if peek () = 's' then adv (); VStr (zbytes (bytes_of_hex (let h = take is_hex in if h = "" then "-" else h)))
+    | TMapHehInt -> if peek () = '{' then adv ();
+        VList (seq '}' (fun () -> let k = int_tok () in if peek () = ':' then adv (); let v = VInt (int_tok ()) in VList [VInt k; v]))
+    | TVecDouble -> if peek () = '[' then adv (); VList (seq ']' (fun () -> go TDouble))
+    | TVecVh | TVecHfh -> if peek () = '[' then adv (); VList (seq ']' (fun () -> go TInt))
+    | TVecVecHfh -> if peek () = '[' then adv (); VList (seq ']' (fun () -> go TVecHfh))
+    | TVec (_, sc) -> if peek () = '(' then adv ();
+        VList (seq ')' (fun () -> go (match sc with SF -> TFloat | SD -> TDouble | SI -> TInt | SUI -> TUInt)))
+  in go t
+
+let type_of_string (n : S.t) : atype option = type_of_name (zbytes (ints_of_string n))
+
+(* ---------------------------------------------------------------- mesh block *)
+let ilist l = S.concat " " (L.map (fun n -> string_of_int (int_of_nat n)) l)
+let bools l = S.concat "" (L.map (fun b -> if b then "1" else "0") l)
+let b2i b = if b then 1 else 0
+
+let mesh_block (f : fin) (writer_order : bool) (caches : bool) =
+  let m = f.f_mesh in
+  pr "nv %d\n" (int_of_nat m.nv);
+  pr "E%s\n" (S.concat "" (L.map (fun (a, b) -> P.sprintf " %d,%d" (int_of_nat a) (int_of_nat b)) m.edges));
+  pr "F%s\n" (S.concat "" (L.map (fun l -> " [" ^ ilist l ^ "]") m.faces));
+  pr "C%s\n" (S.concat "" (L.map (fun l -> " [" ^ ilist l ^ "]") m.cells));
+  let pos = match f.f_props with p :: _ -> p.p_vals | [] -> [] in
+  pr "POS%s\n" (S.concat "" (L.map (function VList [x; y; z] -> " " ^ show_val TDouble x ^ "," ^ show_val TDouble y ^ "," ^ show_val TDouble z | _ -> " ?") pos));
+  pr "del V:%s E:%s F:%s C:%s\n" (bools m.vdel) (bools m.edel) (bools m.fdel) (bools m.cdel);
+  if caches then begin
+    pr "flags v=%d e=%d f=%d\n" (b2i m.vbu) (b2i m.ebu) (b2i m.fbu);
+    pr "OUT%s\n" (S.concat "" (L.map (fun l -> " [" ^ ilist l ^ "]") m.out_hes));
+    pr "HFS%s\n" (S.concat "" (L.map (fun l -> " [" ^ ilist l ^ "]") m.inc_hfs));
+    pr "CELL%s\n" (S.concat "" (L.map (function None -> " -" | Some c -> " " ^ string_of_int (int_of_nat c)) m.inc_cell))
+  end;
+  let props = L.filter (fun p -> p.p_persistent) f.f_props in
+  let key p = (kind_index p.p_kind, string_of_ints (ibytes p.p_name), tname p.p_type) in
+  let props = if writer_order then props else L.stable_sort (fun a b -> Stdlib.compare (key a) (key b)) props in
+  L.iter (fun p ->
+      pr "%s %s %s %s n=%d :%s\n" (if writer_order then "W" else "P") (kind_name p.p_kind) (hex_or_dash (ibytes p.p_name)) (tname p.p_type)
+        (L.length p.p_vals) (S.concat "" (L.map (fun v -> " " ^ show_val p.p_type v) p.p_vals))) props
+
+(* ---------------------------------------------------------------- cases *)
+type case = { mutable id : S.t; mutable mode : S.t; mutable mesh : S.t; mutable check : int; mutable bu : int; mutable api : S.t;
+              mutable aslimit : int; mutable bytes : int list; mutable lines : S.t list }
+
+let split_ws (l : S.t) = L.filter (fun x -> x <> "") (S.split_on_char ' ' (S.map (fun c -> if c = '\t' then ' ' else c) l))
+
+let parse_ll (rest : S.t list) : nat list list =      (* tokens of "[a b c] [d]" already split on blanks *)
+  let cur = ref [] and out = ref [] and inside = ref false in
+  L.iter (fun tok ->
+      let tok = ref tok in
+      if S.length !tok > 0 && !tok.[0] = '[' then (inside := true; cur := []; tok := S.sub !tok 1 (S.length !tok - 1));
+      let closes = S.length !tok > 0 && !tok.[S.length !tok - 1] = ']' in
+      if closes then tok := S.sub !tok 0 (S.length !tok - 1);
+      if !tok <> "" then cur := nat_of_int (int_of_string !tok) :: !cur;
+      if closes then (out := L.rev !cur :: !out; inside := false)) rest;
+  L.rev !out
+
+let default_alloc = z_of_string "4294967296"
+
+let run_read (c : case) =
+  let o = { o_mesh = (match c.mesh with "tet" -> MTet | "hex" -> MHex | _ -> MPoly); o_check = c.check <> 0; o_bu = c.bu <> 0;
+            o_alloc = (if c.aslimit > 0 then z_of_string (string_of_int (c.aslimit * 1048576)) else default_alloc) } in
+  let st f = if c.api = "path" then "-" else bits_of f.f_is in
+  match read_ascii conv_d conv_f o (zbytes c.bytes) with
+  | RTrue f -> pr "result=true st=%s\n" (st f); mesh_block f false true
+  | RFalse f -> pr "result=false st=%s\n" (st f); mesh_block f false true
+  | RExn LengthError -> pr "result=exn:length_error st=?\n"
+  | RExn BadAlloc -> pr "result=exn:bad_alloc st=?\n"
+  | RUB UB_handle_overflow -> pr "!! UB handle_overflow\n"
+  | RUB UB_invalid_halfface -> pr "!! UB invalid_halfface\n"
+  | RSpin -> pr "!! SPIN\n"
+
+(* mode=encode: the harness's observed block of a write case (nv / E / F / C / POS / del / W lines) -> write_ascii *)
+let run_encode (c : case) =
+  let nvv = ref 0 and es = ref [] and fs = ref [] and cs = ref [] and pos = ref [] and props = ref [] in
+  let vdel = ref [] and edel = ref [] and fdel = ref [] and cdel = ref [] in
+  let flags s = L.init (S.length s) (fun i -> s.[i] = '1') in
+  L.iter (fun l ->
+      match split_ws l with
+      | "nv" :: n :: _ -> nvv := int_of_string n
+      | "E" :: rest -> es := L.map (fun t -> match S.split_on_char ',' t with [a; b] -> (nat_of_int (int_of_string a), nat_of_int (int_of_string b)) | _ -> failwith "E") rest
+      | "F" :: rest -> fs := parse_ll rest
+      | "C" :: rest -> cs := parse_ll rest
+      | "POS" :: rest -> pos := L.map (fun t -> match S.split_on_char ',' t with
+            | [a; b; d] -> let h x = z_of_int64u (Stdlib.Int64.of_string ("0x" ^ x)) in ((h a, h b), h d) | _ -> failwith "POS") rest
+      | "del" :: rest -> L.iter (fun t -> match S.split_on_char ':' t with
+            | ["V"; x] -> vdel := flags x | ["E"; x] -> edel := flags x | ["F"; x] -> fdel := flags x | ["C"; x] -> cdel := flags x | _ -> ()) rest
+      | "W" :: k :: name :: ty :: _n :: ":" :: vals ->
+          (match type_of_string ty with
+           | Some t -> props := { p_kind = L.assoc k kinds; p_name = zbytes (bytes_of_hex name); p_type = t; p_persistent = true;
+                                  p_vals = L.map (parse_val t) vals } :: !props
+           | None -> ())           (* "?": a type without typeName, skipped by the writer *)
+      | _ -> ()) c.lines;
+  let cnt l = nat_of_int (L.length (L.filter (fun b -> b) l)) in
+  let m = { empty_mesh with nv = nat_of_int !nvv; edges = !es; faces = !fs; cells = !cs;
+            vdel = !vdel; edel = !edel; fdel = !fdel; cdel = !cdel; ndv = cnt !vdel; nde = cnt !edel; ndf = cnt !fdel; ndc = cnt !cdel } in
+  let w = { w_mesh = m; w_pos = !pos; w_props = L.rev !props } in
+  let text = write_ascii print_d print_f w in
+  pr "pending=%d\n" (b2i (needs_gc m));
+  pr "text %s\n" (hex_or_dash (ibytes text));
+  (* the model's own round trip on this concrete mesh: read (write m), and read (write (read (write m))) *)
+  let o = { o_mesh = MPoly; o_check = false; o_bu = false; o_alloc = default_alloc } in
+  let wm_of (f : fin) = { w_mesh = f.f_mesh;
+                          w_pos = (match f.f_props with p :: _ -> L.map (function VList [VFlt x; VFlt y; VFlt z] -> ((x, y), z) | _ -> ((Z0, Z0), Z0)) p.p_vals | [] -> []);
+                          w_props = L.filter (fun p -> p.p_persistent) f.f_props } in
+  (match read_ascii conv_d conv_f o text with
+   | RTrue f1 ->
+       let t2 = write_ascii print_d print_f (wm_of f1) in
+       (match read_ascii conv_d conv_f o t2 with
+        | RTrue f2 ->
+            let same = f1.f_mesh.nv = f2.f_mesh.nv && f1.f_mesh.edges = f2.f_mesh.edges && f1.f_mesh.faces = f2.f_mesh.faces
+                       && f1.f_mesh.cells = f2.f_mesh.cells && f1.f_props = f2.f_props in
+            let defs = f1.f_mesh.nv = m.nv && f1.f_mesh.edges = m.edges && f1.f_mesh.faces = m.faces && f1.f_mesh.cells = m.cells in
+            pr "model_rt=%s\n" (if not defs then "differs" else if same then "ok" else "unstable")
+        | _ -> pr "model_rt=readfail2\n")
+   | RFalse _ -> pr "model_rt=readfail\n"
+   | RExn _ -> pr "model_rt=exn\n"
+   | RUB _ -> pr "model_rt=ub\n"
+   | RSpin -> pr "model_rt=spin\n")
+
+let run_case (c : case) =
+  pr "== %s\n" c.id;
+  (try (match c.mode with "read" -> run_read c | "encode" -> run_encode c | _ -> pr "# mode %s not handled by the model driver\n" c.mode)
+   with Stdlib.Failure m -> pr "!! DRIVER %s\n" m | Stdlib.Not_found -> pr "!! DRIVER not_found\n");
+  flush_out ()
+
+let run_file (ic : Stdlib.in_channel) =
+  let cur = ref None in
+  (try while true do
+      let line = Stdlib.input_line ic in
+      if line <> "" && line.[0] <> '#' then
+        match split_ws line with
+        | "case" :: id :: kv ->
+            let c = { id; mode = "read"; mesh = "poly"; check = 1; bu = 1; api = "stream"; aslimit = 0; bytes = []; lines = [] } in
+            L.iter (fun t -> match S.index_opt t '=' with
+                | None -> ()
+                | Some i -> let k = S.sub t 0 i and v = S.sub t (i + 1) (S.length t - i - 1) in
+                    (match k with "mode" -> c.mode <- v | "mesh" -> c.mesh <- v | "check" -> c.check <- int_of_string v | "bu" -> c.bu <- int_of_string v
+                                  | "api" -> c.api <- v | "aslimit" -> c.aslimit <- int_of_string v | _ -> ())) kv;
+            cur := Some c
+        | "hex" :: h :: _ -> (match !cur with Some c -> c.bytes <- c.bytes @ bytes_of_hex h | None -> ())
+        | "end" :: _ -> (match !cur with Some c -> c.lines <- L.rev c.lines; run_case c; cur := None | None -> ())
+        | _ -> (match !cur with Some c -> c.lines <- line :: c.lines | None -> ())
+    done with End_of_file -> ())
+
 (* ---------------------------------------------------------------- main *)
 let () =
   let args = Stdlib.Array.to_list Stdlib.Sys.argv in
@@ -134,4 +322,5 @@ let () =
   | _ :: "--toklist" :: _ ->
       (try while true do let l = S.trim (Stdlib.input_line Stdlib.stdin) in if l <> "" then tok_all (bytes_of_hex l) done with End_of_file -> ());
       flush_out ()
-  | _ -> Stdlib.prerr_endline "asciidriver: case mode not built yet"; Stdlib.exit 2
+  | _ :: file :: _ -> let ic = Stdlib.open_in file in run_file ic; Stdlib.close_in ic
+  | _ -> run_file Stdlib.stdin
